@@ -31,3 +31,15 @@ Theorem C03_same_in_all_encodings : forall e cats clef t,
   end.
 Proof. exact non_note_same_in_all_encodings. Qed.
 Print Assumptions C03_same_in_all_encodings.
+
+(* a note written in canonical order is imported with exactly its duration marks, pitch letters, accidental (with
+   display suffix) and signifiers - nothing invented, dropped or altered - and exported as the same text *)
+From KV Require Import KernTok ScanProofs ExportFixedProofs.
+Theorem C03_note_parts_conserved : forall n, note_ok n -> kern_recognise (str (print_note n)) = KTok (note_token n).
+Proof. exact recognise_print. Qed.
+Print Assumptions C03_note_parts_conserved.
+
+Theorem C03_note_export_verbatim : forall n, note_ok n -> canonical_order n ->
+  kern_tokenize all_cats (note_token n) = Ok (str (print_note n)).
+Proof. exact kern_export_canonical. Qed.
+Print Assumptions C03_note_export_verbatim.
